@@ -3,12 +3,13 @@
 # Applies a change to /repo's working tree, runs the given checks, restores /repo. Prints "<ID> exit=<code>" per check.
 set -u
 P="$1"; shift
+case "$P" in revert:*) ;; *) P="$(readlink -f "$P")";; esac
 cd /repo || exit 9
 if [ -n "$(git status --porcelain --untracked-files=no)" ]; then echo "repo not clean"; exit 9; fi
-restore() { git -C /repo checkout -- . ; }
+restore() { git -C /repo reset -q; git -C /repo checkout HEAD -- . ; }
 trap restore EXIT
 case "$P" in
-  revert:*) git show "${P#revert:}" | git apply -R || { echo "cannot revert"; exit 9; } ;;
+  revert:*) git show "${P#revert:}" | git apply -R --3way 2>/dev/null || git show "${P#revert:}" | git apply -R || { echo "cannot revert"; exit 9; } ; git reset -q ;;
   *) git apply --3way "$P" 2>/dev/null || git apply "$P" || { echo "cannot apply $P"; exit 9; } ; git reset -q ;;
 esac
 for id in "$@"; do
